@@ -23,7 +23,26 @@ DOCS = [
     "<r>a<b/>b<b/>c<b/>d</r>",
     "<r><a>1</a><a>2<a>3</a>4</a>5</r>",
     "<r> <a> </a> </r>",
+    '<r a="1" b="2"><a id="x">t<b n="1" m=""/>u</a><!--c--><c k="v w"/>z</r>',
+    '<p:r xmlns:p="urn:p" xmlns:q="urn:q" n="0"><p:item n="1" q:ref="r">text<!--c--><plain n="2" p:n="3"/>tail</p:item>end</p:r>',
 ]
+
+
+def pick_doc(rng, docs=None):
+    """a seed document: one of the fixed ones or (30%) a generated one - any mix of text before/after/between
+    elements, comments, PIs, namespaces with at most one default-namespace declaration; attributes only when no
+    default namespace is declared (attribute keys after re-parenting across default-namespace scopes: recorded
+    observation, see DESIGN.md section 4)"""
+    docs = DOCS if docs is None else docs
+    if rng.random() >= 0.3:
+        return rng.choice(docs)
+    dn = rng.choice([None, None, "urn:d"])
+    text = lambda g: trees.gen_text(g, ws_prob=0.3, words=["x", "yz", "lorem", "é", "&", "<"], ws=[" ", "\n", "  "])  # noqa: E731
+    t = trees.gen_tree(rng, max_depth=3, max_kids=4, nss=["", "", "urn:x", "urn:d"] if dn else ["", "", "urn:x", "urn:y"],
+                       p_text=0.45, p_comment=0.1, p_pi=0.07, text=text, attrs=dn is None, inherit_ns=0.7)
+    if dn:
+        t[1] = dn
+    return trees.to_xml(t, default_ns=dn)
 
 
 # ------------------------------------------------------------------ the mirror (plain ordered trees)
